@@ -69,7 +69,7 @@ from nucs.problems.problem import Problem
 from nucs.propagators.propagators import COMPUTE_DOMAINS_FCTS, add_propagators
 from nucs.solvers.choice_points import backtrack, cp_init
 from nucs.solvers.consistency_algorithms import CONSISTENCY_ALG_BC, CONSISTENCY_ALG_FCTS
-from nucs.solvers.solver import Solver, decrease_max, get_solution, increase_min
+from nucs.solvers.solver import Solver, decrease_max, get_solution, increase_min, is_domain_empty
 
 logger = logging.getLogger(__name__)
 
@@ -231,6 +231,8 @@ class BacktrackSolver(Solver):
                 variable_idx,
                 best_solution[variable_idx],
             )
+            if is_domain_empty(self.shr_domains_stack, self.stacks_top, self.problem.dom_indices_arr, variable_idx):
+                break  # the objective cannot be improved further
         return best_solution
 
     def solve(self) -> Iterator[NDArray]:
@@ -366,6 +368,8 @@ class BacktrackSolver(Solver):
                 variable_idx,
                 solution[variable_idx],
             )
+            if is_domain_empty(self.shr_domains_stack, self.stacks_top, self.problem.dom_indices_arr, variable_idx):
+                break  # the objective cannot be improved further
         solution_queue.put((processor_idx, None, self.statistics))
 
     def solve_and_queue(self, processor_idx: int, solution_queue: Queue) -> None:
